@@ -61,3 +61,6 @@ OBLIGATIONS = FT.fault_obligations('c03', 'C03') + [
          encodes=['GetObjectTask._main', 'S3_RETRYABLE_DOWNLOAD_ERRORS', 'RetriesExceededError'],
          assumptions=['S1', 'identity-content data']),
 ]
+
+from harness.corace import OB_DEPS, task_dependencies  # noqa: E402
+OBLIGATIONS += [dict(OB_DEPS, id='C03.deps')]
